@@ -43,11 +43,21 @@ DECOMPILE_SRC = {
 }
 SSBS_TEXT = "def 0 { a(1, 'x'); @l; Branch($V, 1, @l); two('a\\nb', {english='e'}); End(); }"
 SSBS_BAD = "def 0 { a(1; }"
+# a small project on disk: nested imports (main -> lib/b -> lib/c) and two imported files that define the same macro
+IMPORT_ROOT = "/tmp/vf_c11_proj"
+IMPORT_FILES = {
+    "main.exps": 'import "./lib/b.exps";\nimport "./other.exps";\nimport "./third.exps";\n'
+                 "def 0 { ~mb(1); ~shared(); ~mc('direct'); end; }\n",
+    "lib/b.exps": 'import "./c.exps";\nmacro mb($p) { ~mc($p); x($p, Position<\'in_b\', 1, 2>); }\nmacro shared() { from_b(); }\n',
+    "lib/c.exps": "macro mc($q) { y($q); if ($q == 1) { return; } z(); }\n",
+    "other.exps": "macro shared() { from_other(); }\n",
+    "third.exps": "macro shared() { from_third(); }\nmacro unused() { u(); }\n",
+}
 RAW_FALLBACK = "raw_fallback"   # a set the structuring passes reject -> SsbScript fallback (raises inside convert)
 CLI_DOC = "cli_doc"
 
-OPS = (list(COMPILE_TEXTS) + ["c_reuse:c_simple", "c_reuse:c_switch", "c_reuse:c_fail_late"] + list(DECOMPILE_SRC) +
-       [RAW_FALLBACK, CLI_DOC, "ssbs_compile", "ssbs_compile_bad", "ssbs_decompile"])
+OPS = (list(COMPILE_TEXTS) + ["c_import", "c_reuse:c_simple", "c_reuse:c_switch", "c_reuse:c_fail_late", "c_reuse:c_import"] +
+       list(DECOMPILE_SRC) + [RAW_FALLBACK, CLI_DOC, "ssbs_compile", "ssbs_compile_bad", "ssbs_decompile"])
 
 
 def digest(obj):
@@ -83,12 +93,18 @@ class World:
         try:
             if op in COMPILE_TEXTS:
                 return ["ok", describe_comp(impl.compile_es(COMPILE_TEXTS[op]))]
+            if op == "c_import":
+                return ["ok", describe_comp(impl.compile_es(IMPORT_FILES["main.exps"], os.path.join(IMPORT_ROOT, "main.exps")))]
             if op.startswith("c_reuse:"):
                 from explorerscript.ssb_converting.ssb_compiler import ExplorerScriptSsbCompiler
                 if self.reused is None:
                     self.reused = ExplorerScriptSsbCompiler(impl.PERF, [])
                 c = self.reused
-                c.compile(COMPILE_TEXTS[op.split(":", 1)[1]], "/nonexistent-dir/main.exps")
+                what = op.split(":", 1)[1]
+                if what == "c_import":
+                    c.compile(IMPORT_FILES["main.exps"], os.path.join(IMPORT_ROOT, "main.exps"))
+                else:
+                    c.compile(COMPILE_TEXTS[what], "/nonexistent-dir/main.exps")
                 return ["ok", describe_comp(impl.Compiled(c))]
             if op == "ssbs_compile":
                 return ["ok", describe_comp(impl.compile_ssbs(SSBS_TEXT))]
@@ -135,6 +151,18 @@ def canonical_state():
 
 def prepare():
     """In the template process: compile the decompiler inputs once (pickled, so every history gets private copies)."""
+    for rel, text in IMPORT_FILES.items():
+        path = os.path.join(IMPORT_ROOT, rel)
+        os.makedirs(os.path.dirname(path), exist_ok=True)
+        try:
+            same = open(path).read() == text
+        except OSError:
+            same = False
+        if not same:
+            tmp = f"{path}.{os.getpid()}.tmp"
+            with open(tmp, "w") as f:
+                f.write(text)
+            os.replace(tmp, path)
     for name, src in DECOMPILE_SRC.items():
         comp = impl.compile_es(src)
         PRISTINE_COMPILED[name] = pickle.dumps((comp.routine_ops, comp.routine_infos, comp.named_coroutines))
@@ -214,18 +242,22 @@ def run_case(cid, hist):
     return res
 
 
+FRESH_HASH_SEEDS = ("0", "1", "2", "3", "4", "5", "6", "4242")
+
+
 def fresh_interpreter_results():
-    """The alphabet in truly fresh interpreters (two hash seeds)."""
+    """The alphabet in truly fresh interpreters (eight hash seeds: iteration orders of sets of strings differ between them)."""
     code = ("import sys, json; sys.path.insert(0, %r); sys.path.insert(0, %r); from vf.props import C11; from vf import impl, runner; "
             "import logging; logging.disable(logging.CRITICAL); C11.prepare(); w = C11.World(); "
             "print(json.dumps({op: C11.World().run(op) for op in C11.OPS}))" % (runner.VERIF, impl.REPO))
     out = {}
-    for hs in ("0", "4242"):
-        p = subprocess.run([sys.executable, "-c", code], capture_output=True, text=True,
-                           env=dict(os.environ, PYTHONHASHSEED=hs, VERIF_REPO=impl.REPO))
+    procs = {hs: subprocess.Popen([sys.executable, "-c", code], stdout=subprocess.PIPE, stderr=subprocess.PIPE, text=True,
+                                  env=dict(os.environ, PYTHONHASHSEED=hs, VERIF_REPO=impl.REPO)) for hs in FRESH_HASH_SEEDS}
+    for hs, p in procs.items():
+        so, se = p.communicate()
         if p.returncode != 0:
-            raise RuntimeError(p.stderr[-800:])
-        out[hs] = json.loads(p.stdout.strip().splitlines()[-1])
+            raise RuntimeError(se[-800:])
+        out[hs] = json.loads(so.strip().splitlines()[-1])
     return out
 
 
@@ -259,7 +291,7 @@ def run(tier, seed):
             yield ("hist-long", a, b), ((a, b) * 6, (1, 0))
     total = runner.explore(make_cases, run_case, timeout=120.0)
     total["viols"].extend(fresh_viols)
-    total["evaluations"] += len(OPS) * 2
+    total["evaluations"] += len(OPS) * len(FRESH_HASH_SEEDS)
     states = {k for k in total["extra"] if k.startswith("state_")}
     nstates = len(states)
     for k in states:
@@ -267,13 +299,13 @@ def run(tier, seed):
     total["states"] = nstates
     return runner.finish(
         ID, LEVEL, tier, seed, total, t0,
-        rule=f"all histories of <= {depth} calls over {len(OPS)} operations (7 compile texts incl. 3 that raise at different stages, "
-             "3 of them also through one reused compiler object, 6 decompiler inputs reused across calls, a routine set that "
+        rule=f"all histories of <= {depth} calls over {len(OPS)} operations (7 compile texts incl. 3 that raise at different stages, a project on disk with nested imports and three imported files defining the same macro, "
+             "4 of them also through one reused compiler object, 6 decompiler inputs reused across calls, a routine set that "
              "takes the fallback path, the CLI's read_routines + decompile, SsbScript compile (good / syntax error) and decompile) x environment choices (gc.collect() between calls; "
              "3 graphs held to shift the heap phase), plus 42 twelve-call alternations of two decompiler inputs; every history runs "
              "in a fresh fork of the pristine template; after every call the result (ops / text / serialised source map / "
              "exception, and 'input routine set structurally unchanged') must equal the pristine result; the pristine results "
-             "must equal those of two fresh interpreters (PYTHONHASHSEED 0 and 4242); states = distinct canonical process states "
+             "must equal those of eight fresh interpreters (PYTHONHASHSEED 0..6 and 4242); states = distinct canonical process states "
              "(memo table shape, class-level lists, CLI counter) reached, transitions = calls executed; "
              "non-trivial = history with at least two calls",
         assumptions=["recycling of graph ids is left to CPython's allocator (gc choice and heap phase are explored, not the id itself)",
